@@ -99,12 +99,12 @@ fn run_property(id: &str, eng: &Engine, a: &Args) -> (&'static str, Vec<&'static
             ("E2: catch_unwind around eval_from_bytes for batches of hostile scripts (truncated pushes, huge PUSHDATA4, all leading opcodes, hundreds to thousands of pushes, raw bytes) on all 8 coins, debug assertions and overflow checks on; any panic or Error(..) verdict is a violation.", vec![])
         }
         "C01" => {
-            let n = if q { 600 } else { 60_000 };
+            let n = if q { 600 } else { 20_000 };
             eng.explore("read_block-roundtrip", scaled(n, a), move || block_strategy(tier, false), check_block_case);
             ("E2: generated blocks (CompactSize boundary classes, legacy/segwit, AuxPoW where the coin has it) serialised by the model and decoded in-process by BlockchainRead::read_block; every field, block hash, txids, witness-stripped re-serialisation, consumed length and merkle root compared.", vec![])
         }
         "C12" => {
-            let n = if q { 600 } else { 60_000 };
+            let n = if q { 600 } else { 20_000 };
             eng.explore("auxpow-roundtrip", scaled(n, a), move || block_strategy(tier, true), check_block_case);
             ("E2: blocks with generated AuxPoW sections and versions around the threshold decoded in-process; the section must be consumed exactly (consumed length == stored length) and hash / txs must equal the model.", vec![])
         }
